@@ -76,8 +76,18 @@ fn input(rng: &mut Rng) -> Vec<u8> {
     let mut s = String::new();
     for _ in 0..n {
         if rng.chance(1, 12) {
-            // a very long line (longer than BufReader's 8 KiB buffer)
-            s.push_str(&"long ".repeat(2000));
+            // a long line: around every power-of-two buffer size, ASCII or multi-byte (a character may
+            // straddle the boundary), up to well beyond BufReader's 8 KiB buffer
+            let len = *rng.pick(&[255usize, 256, 1023, 1024, 4095, 4096, 4097, 8191, 8192, 8193, 10_000, 65_537]);
+            let unit = *rng.pick(&["x", "long ", "é", "日", "🎸"]);
+            let mut line = String::new();
+            if rng.coin() {
+                line.push('a'); // shift multi-byte characters off the alignment
+            }
+            while line.len() + unit.len() <= len {
+                line.push_str(unit);
+            }
+            s.push_str(&line);
         } else {
             s.push_str(rng.pstr(LINES));
         }
